@@ -316,3 +316,32 @@ def _native_discard():
 
 register(c_discard_frame_state, id="C02.VM._discard_frame_state", prop="C02", target=method("microjs.vm", "VM._discard_frame_state"), native=_native_discard,
          invariants={("microjs.vm:VM._discard_frame_state", 0): inv_discard}, prim_args=False)
+
+
+# ---- K1: the nesting guard of script code run by built-ins (what keeps callback-mediated recursion off the host's stack) ----
+def c_enter_native(vm: Obj("VM"), depth: IntRange(0, 10 ** 9)):
+    """VM._enter_native: one more level of script code running inside a built-in is counted, or -- at the guard -- refused
+    with MemoryLimitError and not counted; nothing else changes.  (Context._nested_vm, proved in C01, hands the count on
+    to the VM of nested code; every caller undoes the count in a finally: K3 C02.struct.native-depth-guard)"""
+    vm.native_depth = depth
+    limit = vm.MAX_NATIVE_DEPTH
+    snap = heap_snapshot()
+    o = outcome(REAL, vm)
+    if depth >= limit:
+        check("refused-at-the-guard", exc_in(o, ("MemoryLimitError",)))
+        check("not-counted-when-refused", vm.native_depth == depth)
+    else:
+        check("returns-below-the-guard", o[0] == "ret")
+        check("counts-one-level", vm.native_depth == depth + 1)
+    check("the-guard-is-a-small-constant", 1 <= limit and limit <= 200)
+    check("nothing-else-changes", heap_unchanged(snap, (vm, "native_depth")))
+
+
+def _native_enter():
+    from microjs.vm import VM
+    return VM._enter_native
+
+
+register(c_enter_native, id="C02.VM._enter_native", prop="C02", target=method("microjs.vm", "VM._enter_native"), native=_native_enter)
+register(C01.c_nested_vm, id="C02.Context._nested_vm", prop="C02", target=method("microjs.context", "Context._nested_vm"), native=C01._ctx_method("_nested_vm"),
+         grid={"Flt": [0.0, 1.0, 1e6]})
